@@ -14,6 +14,9 @@ def _init(check_module, extra_env):
     global _MOD
     _env.apply_env(extra_env)
     _env.import_elexmodel()
+    from . import fakes
+
+    fakes.install_fake_boto3()  # object-store seam: nothing ever talks to a real service
     _MOD = importlib.import_module(check_module)
     if hasattr(_MOD, "worker_init"):
         _MOD.worker_init()
